@@ -147,7 +147,7 @@ Proof.
   step_split t Hst; pre; try (split; assumption).
   all: cbn [post_push] in QN; try specialize (QN eq_refl).
   all: unfold_effs; rewrite ?Fc, ?Fw, ?Fe, ?Ff in *;
-       unfold ctl_ok, quiet_pc, kind_ok, dk_chain, is_run, is_perr, is_reader in OK;
+       unfold ctl_ok, quiet_pc, kind_ok, dk_chain, gk_of, is_run, is_perr, is_reader in OK;
        cbn [e_pc e_ph e_out e_res e_fin e_last andb gk_of nr nd set_nd set_prog set_reo set_ch set_script set_ws] in *.
   all: split; [intros [[d' X]|X]|intros X Y]; brute;
        cbn [e_pc e_ph e_out e_res e_fin e_last andb gk_of nr nd] in *; try discriminate; try congruence.
